@@ -23,7 +23,7 @@ LEVEL = "exploration"
 BUDGET = {"quick": 60, "thorough": 1200}
 RUN_TIMEOUT = 150
 SELFTEST_PAIRS = {"quick": 10, "thorough": 30}
-PROBES = ["pct_style_schedule", "first_use_of_reloaded_extractor_module", "two_tasks_in_charmap_section", "exception_inside_section", "failing_input_in_history",
+PROBES = ["first_import_of_extractor_module", "pct_style_schedule", "first_use_of_reloaded_extractor_module", "two_tasks_in_charmap_section", "exception_inside_section", "failing_input_in_history",
           "lock_contended", "sequential_history", "aes_pdf_in_workload", "mixed_formats", "archive_7z_in_workload", "systematic_switch_in_section", "cold_history"]
 RULE = ("one run = k real threads x 1-3 real extractions (or one sequential history of 2-10) under a seeded pre-emptive schedule; "
         "distinct non-trivial = distinct projection of the event log onto (task, line) events inside the char-map patch section plus "
@@ -310,7 +310,16 @@ def warm():
 
 # ------------------------------------------------------------------------------------------------ generation
 def gen_case(rng: random.Random, tier: str) -> dict:
-    mode = rng.choices(["threads", "sequential", "section_enum", "cold"], [4, 1, 2, 0.6])[0]
+    mode = rng.choices(["threads", "sequential", "section_enum", "cold", "first_import"], [4, 1, 2, 0.6, 0.7])[0]
+    if mode == "first_import" and _families:
+        # two threads meet at the very first use of a format in the process: its extractor module is not imported yet
+        fam = rng.choice(sorted(_families))
+        small = [n for n in _families[fam] if len(_docs[n]) < 200_000] or _families[fam]
+        k = rng.choice([2, 2, 3])
+        return {"mode": "threads", "first_import": True, "tasks": [[rng.choice(small)] for _ in range(k)], "sched_seed": rng.randrange(1 << 40), "p_call": 0.0, "p_line": 0.0,
+                "line_granularity": False, "inject": None, "schedule": None, "change_points": sorted({rng.randrange(1, 120) for _ in range(rng.choice([1, 2]))})}
+    if mode == "first_import":
+        mode = "threads"
     if mode == "cold":
         # a fresh interpreter with lazy imports: [A..., B] against [B] alone (import-time and first-use side effects are history too)
         small = [n for n in _pool if len(_docs[n]) < 300_000 and not n.startswith("var/aes")] + [n for n in ("gen/server.log", "gen/settings.ini", "gen/deep.html",
@@ -605,6 +614,20 @@ def run_case(case: dict) -> dict:
         sched.add(mk(ti, docs))
 
     extra_codes = []
+    unloaded = []
+    if case.get("first_import"):
+        from sharepoint2text.parsing import router
+        for docs in case["tasks"]:
+            for n in docs:
+                try:
+                    modname = router.get_extractor(os.path.basename(n)).__module__
+                except Exception:
+                    continue
+                if modname in sys.modules and modname.startswith("sharepoint2text.parsing.extractors") and modname not in unloaded:
+                    unloaded.append(modname)
+        for modname in unloaded:
+            del sys.modules[modname]  # the next get_extractor() of this format imports it again, from scratch
+        probes["first_import_of_extractor_module"] = len(unloaded)
     if case.get("cold_modules"):
         import importlib
         from sharepoint2text.parsing import router
@@ -634,10 +657,17 @@ def run_case(case: dict) -> dict:
     if extra_codes:
         line_codes = line_codes + extra_codes  # first use: a thread can lose the CPU between any two lines of the re-executed modules
     ins.install(call_codes, line_codes)
+    coop = None
+    if unloaded:
+        ins.install_global(K.PKG + os.sep, p_module_switch=0.6)
+        coop = S.CooperativeImportLocks(sched)
+        coop.__enter__()
     try:
         status = sched.run(stall_s=100.0)
     finally:
         ins.remove()
+        if coop is not None:
+            coop.__exit__(None, None, None)
     if status == "stall":
         raise RuntimeError("HARNESS stall: a task did not reach a yield point within 100 s")
     gc.collect()
